@@ -56,8 +56,11 @@ def random_strings(rng, alphabet, n, minlen, maxlen):
 
 SAFE_TEXT_STARTS = ['. ', ', ', '; ', '! ', '1 ', '-- ']
 WORDS = ['a', 'b', 'foo', 'bar baz', 'x y', 'Hello', 'w', 'z1', 't.']
+# the last three collide with names the library uses internally (TexText is
+# named 'text', groups 'BraceGroup', \[..\] 'displaymath'): a command of that
+# name must still be an ordinary command
 CMD_NAMES = ['x', 'foo', 'emph', 'textit', 'alpha', 'ref', 'cite', 'bar*',
-             'vspace*', 'y']
+             'vspace*', 'y', 'text', 'BraceGroup', 'displaymath']
 ENV_NAMES = ['a', 'b', 'center', 'quote', 'tabular', 'document', 'figure*']
 LIST_ENV_NAMES = ['itemize', 'enumerate', 'description']
 MATH_ENV_NAMES = ['equation', 'align*', 'align', 'gather', 'math',
